@@ -155,6 +155,71 @@ pub fn parse_args(engine: &str) -> Ctx {
 }
 
 // ---------------------------------------------------------------------------
+// oracle selection: a check asserts only what ITS property states.  The engines share
+// executions between sibling properties, so each oracle is switched on by the properties that
+// state it; an execution that violates a sibling property only must not raise this one's alarm.
+
+#[derive(Clone, Copy, Debug, PartialEq, Eq)]
+#[repr(u32)]
+pub enum Oracle {
+    /// nothing still alive after everything was dropped (C10)
+    Leak = 1,
+    /// every exposed slice lies in live memory (C05; also C03/C04/C20 where a dangling slice makes the contents claim meaningless)
+    Liveness = 2,
+    /// output equals the canonical encoding / decoder agrees with the reference decoder (C07)
+    Canonical = 4,
+    /// decode(encode(x)) == x through the real codec on both sides (C01)
+    RoundTrip = 8,
+    /// no FE FD in the output, output independent of splits / methods / drains, length bound (C02)
+    OutputShape = 16,
+    /// drained bytes are a prefix of the final output, drain return values, lag bounds (C09)
+    PrefixLag = 32,
+    /// streaming footprint bounds (C10)
+    Footprint = 64,
+    /// contents / return values / record lists / tilings against the reference model
+    Content = 128,
+}
+
+/// Violation descriptions carry a class tag in front ("[leak] ...").  A description is relevant
+/// to the running check iff its class is switched on; untagged descriptions (panics, aborts,
+/// harness-independent failures) are always relevant: a panic on a valid history falsifies any
+/// "for every history ... afterwards" claim.
+pub fn relevant(msg: &str) -> bool {
+    let body = msg.trim_start();
+    // tags may be preceded by a step prefix such as "step 3 (A:push(1)): " or "after the last step: "
+    for (tag, o) in [
+        ("[leak]", Oracle::Leak),
+        ("[live]", Oracle::Liveness),
+        ("[canon]", Oracle::Canonical),
+        ("[roundtrip]", Oracle::RoundTrip),
+        ("[shape]", Oracle::OutputShape),
+        ("[prefix]", Oracle::PrefixLag),
+        ("[footprint]", Oracle::Footprint),
+        ("[content]", Oracle::Content),
+    ] {
+        if body.contains(tag) {
+            return oracle(o);
+        }
+    }
+    true
+}
+
+static ORACLES: std::sync::atomic::AtomicU32 = std::sync::atomic::AtomicU32::new(u32::MAX);
+
+pub fn set_oracles(list: &[Oracle]) {
+    let mut mask = 0u32;
+    for o in list {
+        mask |= *o as u32;
+    }
+    ORACLES.store(mask, std::sync::atomic::Ordering::Relaxed);
+}
+
+#[inline]
+pub fn oracle(o: Oracle) -> bool {
+    ORACLES.load(std::sync::atomic::Ordering::Relaxed) & (o as u32) != 0
+}
+
+// ---------------------------------------------------------------------------
 // hashing
 
 pub fn hash_of<T: Hash + ?Sized>(value: &T) -> u64 {
